@@ -56,8 +56,8 @@ def check(ctx):
     n_used = 0
     for r in inv:
         if r['rv'] is None:
-            raise AnalysisError(
-                f"inline regex in {r['where']} does not fold ({r.get('why')})")
+            ctx.undecided('RX-AMB', r['name'], f"inline regex in {r['where']} does not fold ({r.get('why')}): not analysed")
+            continue
         rv = r['rv']
         name = r['name']
         used = r['kind'] != 'module' or bool(usage.get(name))
@@ -102,6 +102,8 @@ def check(ctx):
     ctx.attempt(_progress)
     ctx.attempt(_bounded_expansion)
     ctx.attempt(_cursor_from_match_end)
+    from .c15 import _globals_inventory       # a scrubber table that grows with every call makes every later parse slower
+    ctx.attempt(_globals_inventory)
     from .layouts import check_dispatch       # a costly context check must not run for layouts that never need it
     ctx.attempt(check_dispatch)
 
@@ -349,13 +351,7 @@ def _whitespace_normal_form(ctx):
     substitution i to the text substitution j>i writes (next to i's own
     output) still changes it."""
     fi = ctx.repo.func('plss_preprocess:reduce_whitespace')
-    subs = []
-    for c in walk_local(fi.node):
-        if isinstance(c, ast.Call) and (dotted(c.func) or '') == 're.sub' and len(c.args) >= 3:
-            p_ = ctx.fold.eval(c.args[0], {}, fi.module.name)
-            r_ = ctx.fold.eval(c.args[1], {}, fi.module.name)
-            if isinstance(p_, str) and isinstance(r_, str):
-                subs.append((p_, r_, c))
+    subs = common.sub_pairs(ctx, fi)
     construct = 'reduce_whitespace repeats its substitutions until nothing changes'
     if len(subs) < 2:
         ctx.undecided('FIXPOINT', construct, 'substitutions not recognised')
@@ -375,6 +371,19 @@ def _whitespace_normal_form(ctx):
     if not feeds:
         ctx.ok('FIXPOINT', construct, 'the substitutions do not feed each other: one pass is stable')
         return
+    # the stability test compares the texts, not a projection of them
+    for lp in looped:
+        tests = [lp.test] if isinstance(lp, ast.While) else []
+        tests += [n.test for n in ast.walk(lp) if isinstance(n, ast.If) and any(isinstance(x, (ast.Break, ast.Return)) for x in ast.walk(n))]
+        for t in tests:
+            if isinstance(t, ast.Compare) and len(t.ops) == 1 and isinstance(t.ops[0], (ast.Eq, ast.NotEq)):
+                sides = [t.left, t.comparators[0]]
+                if all(isinstance(x, ast.Call) and dotted(x.func) in ('len', 'hash') for x in sides):
+                    ctx.violation('FIXPOINT', construct,
+                                  f"`{norm(t)}` compares a projection (length) of two passes: a pass that turns every tab into a blank "
+                                  f"keeps the length, so the loop stops although blanks that now touch have not been collapsed yet",
+                                  key="FIXPOINT|reduce_whitespace|projection", where=common.loc(fi, t))
+                    return
     i, j, s_ = feeds[0]
     ctx.check(bool(looped), 'FIXPOINT', construct,
               f"{len(feeds)} feeding pair(s), all inside a loop",
@@ -448,6 +457,51 @@ def _cursor_from_match_end(ctx):
                                                     out_ = True
                                             return out_
                                         return False
+                                    def geq_end(e, depth=0):
+                                        # is the value provably >= the end of the last match?  'yes' / 'no' / None
+                                        if depth > 8:
+                                            return None
+                                        if isinstance(e, ast.Call):
+                                            if isinstance(e.func, ast.Attribute) and e.func.attr == 'end':
+                                                return 'yes'
+                                            if dotted(e.func) == 'len':
+                                                return 'yes'            # len(chunk) is >= any match end
+                                            if dotted(e.func) in ('min', 'max'):
+                                                parts = e.args[0].elts if len(e.args) == 1 and isinstance(e.args[0], (ast.Tuple, ast.List)) else e.args
+                                                rs = [geq_end(x, depth + 1) for x in parts]
+                                                if dotted(e.func) == 'min':
+                                                    return 'no' if 'no' in rs else ('yes' if all(r == 'yes' for r in rs) else None)
+                                                return 'yes' if 'yes' in rs else ('no' if all(r == 'no' for r in rs) else None)
+                                            return None
+                                        if isinstance(e, ast.BinOp) and isinstance(e.op, ast.Add):
+                                            l_, r_ = geq_end(e.left, depth + 1), geq_end(e.right, depth + 1)
+                                            return 'yes' if 'yes' in (l_, r_) else None
+                                        if isinstance(e, ast.BinOp) and isinstance(e.op, ast.Sub):
+                                            # (something clipped at the text end) - (a context width): may fall back behind the match
+                                            if isinstance(e.right, (ast.Name, ast.Constant)) and not (isinstance(e.right, ast.Constant) and e.right.value == 0):
+                                                return 'no'
+                                            return None
+                                        if isinstance(e, ast.Name):
+                                            if e.id in ('max_end',):
+                                                return 'yes'
+                                            node_ = _flow.stmt_node(cfg_, e)
+                                            rs = []
+                                            for d_ in rd_.reaching(node_, e.id):
+                                                if d_[0] == 'param':
+                                                    return None
+                                                v_ = rd_.defs[d_]
+                                                rs.append(geq_end(v_, depth + 1) if isinstance(v_, ast.AST) else None)
+                                            if rs and all(r == 'yes' for r in rs):
+                                                return 'yes'
+                                            return 'no' if 'no' in rs else None
+                                        return None
+                                    if geq_end(a_.value) == 'no':
+                                        n += 1
+                                        ctx.violation('PROGRESS', f"{fi.qualname}: the next search position `{cur}` is not before the end of the last match",
+                                                      f"`{norm(a_)}` subtracts a context width from a position that was clipped at the end of the text: "
+                                                      f"near the end of a chunk the result lies before the match just handled, so the same word is "
+                                                      f"found again forever", key=f"PROGRESS|{fi.qualname}|{cur}|behind-match", where=common.loc(fi, a_))
+                                        continue
                                     has_end = derives(a_.value, 'end')
                                     seen_.clear()
                                     has_start = derives(a_.value, 'start') or any(
